@@ -141,7 +141,14 @@ func wildify(rt *rapid.T, v *model.Val, p int) {
 		wildify(rt, &v.L[i], p)
 	}
 	for i := range v.M {
+		was := v.M[i].V.T
 		wildify(rt, &v.M[i].V, p)
+		if v.M[i].V.T != was {
+			switch v.T {
+			case "mapss", "mapsi", "mapsf", "mapsb":
+				v.T = "map" // typed maps cannot hold wild values
+			}
+		}
 	}
 }
 
